@@ -54,3 +54,47 @@ Proof.
     + exists r. split; [apply in_or_app; right; exact Hr|exact Hx].
   - exists r. split; [|exact Hx]. apply in_app_or in Hr. apply in_or_app. destruct Hr; [left|right; right]; assumption.
 Qed.
+
+(* however it was built: the address set of a range list IS (the same canonical list as) the set built from
+   the same ranges with the words aset and add *)
+Definition built (rs : list (Z * Z)) : cov :=
+  fold_left (fun c r => w_add c (w_aset (fst r) (snd r))) rs [].
+
+Lemma w_aset_ok a b : 0 <= a <= b -> b < TOP -> Inv (w_aset a b) /\ forall x, mem (w_aset a b) x <-> a <= x < b.
+Proof.
+  intros H1 H2. unfold w_aset. rewrite Z.min_l, Z.max_r by lia.
+  assert (I0 : Inv []) by (unfold Inv; cbn; exact I).
+  destruct (add_ok [] a (b - a) I0 ltac:(lia) ltac:(lia) ltac:(lia)) as [Hi Hm].
+  split; [exact Hi|]. intros x. rewrite Hm. pose proof (mem_nil x). split; [intros [F|F]; [tauto|lia]|intros F; right; lia].
+Qed.
+
+Lemma built_fold_ok rs : forall c, Inv c -> (forall r, In r rs -> proper r) ->
+  let res := fold_left (fun c r => w_add c (w_aset (fst r) (snd r))) rs c in
+  Inv res /\ forall x, mem res x <-> mem c x \/ exists r, In r rs /\ fst r <= x < snd r.
+Proof.
+  induction rs as [|r rs IH]; intros c Hc Hp; cbn [fold_left].
+  - split; [exact Hc|]. intros x. split; [tauto|]. intros [H|[r [[] _]]]. exact H.
+  - assert (Pr : proper r) by (apply Hp; left; reflexivity). destruct Pr as [[P0 P1] P2].
+    destruct (w_aset_ok (fst r) (snd r) ltac:(lia) P2) as [Ia Ma].
+    destruct (add_all_ok c (w_aset (fst r) (snd r)) Hc Ia) as [Hi Hm]. fold (w_add c (w_aset (fst r) (snd r))) in Hi, Hm.
+    destruct (IH _ Hi (fun q Hq => Hp q (or_intror Hq))) as [Hi' Hm'].
+    split; [exact Hi'|]. intros x. rewrite Hm', Hm, Ma. split.
+    + intros [[H|H]|[q [Hq Hx]]].
+      * left; exact H.
+      * right. exists r. split; [left; reflexivity|exact H].
+      * right. exists q. split; [right; exact Hq|exact Hx].
+    + intros [H|[q [[->|Hq] Hx]]].
+      * left; left; exact H.
+      * left; right; exact Hx.
+      * right. exists q. split; assumption.
+Qed.
+
+Theorem ranges_equal_built rs : (forall r, In r rs -> proper r) -> die_ranges rs = built rs.
+Proof.
+  intros Hp.
+  destruct (die_ranges_ok rs Hp) as [I1 M1].
+  assert (I0 : Inv []) by (unfold Inv; cbn; exact I).
+  destruct (built_fold_ok rs [] I0 Hp) as [I2 M2]. fold (built rs) in I2, M2.
+  apply w_cmp_eq. apply cmp_eq_iff_same_set; [exact I1|exact I2|].
+  intros x. rewrite M1, M2. pose proof (mem_nil x). tauto.
+Qed.
